@@ -1,6 +1,7 @@
 import Driver.Util
 import Driver.C05
 import TemporalModel.Model.Partial
+import TemporalModel.Model.Relative
 namespace Driver
 open TemporalModel
 
@@ -205,9 +206,7 @@ def handleC17 (toks : List String) : Option String :=
         let o ← rawOptions l s inc m
         match a, b, o with
         | .ok a, .ok b, .ok o =>
-          match yearMonthDiff (op == "ym_since") a b o with
-          | some r => some (r.render Dur.render)
-          | none => some "?rounding-path"
+          some ((yearMonthDiffFull (op == "ym_since") a b o).render Dur.render)
         | .ok _, .ok _, .err k => some ("err " ++ k.name)
         | .ok _, .err k, _ => some ("err " ++ k.name)
         | .err k, _, _ => some ("err " ++ k.name)
